@@ -54,9 +54,11 @@ class HasControlledBy:
         to be called from the write_target method
         """
         if self.controlled_by:
-            self.controlled_by = 0  # self
+            # switch off the inputs first: when this fails, controlled_by keeps naming the module
+            # still in control, and the next call tries again
             for deactivate_control in self.inputCallbacks.values():
                 deactivate_control(self.name)
+            self.controlled_by = 0  # self
 
     def update_target(self, module, value):
         """update internal target value
